@@ -37,6 +37,8 @@ pub struct Worker {
     child: Child,
     stdin: ChildStdin,
     stdout: BufReader<ChildStdout>,
+    /// tail of the worker's stderr (diagnostics when it dies)
+    stderr_tail: Arc<Mutex<String>>,
 }
 
 pub enum Reply {
@@ -49,10 +51,26 @@ pub enum Reply {
 impl Worker {
     pub fn spawn() -> Result<Worker, String> {
         let exe = std::env::current_exe().map_err(|e| e.to_string())?;
-        let mut child = Command::new(exe).arg("worker").stdin(Stdio::piped()).stdout(Stdio::piped()).stderr(Stdio::null()).spawn().map_err(|e| e.to_string())?;
+        let mut child = Command::new(exe).arg("worker").stdin(Stdio::piped()).stdout(Stdio::piped()).stderr(Stdio::piped()).spawn().map_err(|e| e.to_string())?;
         let stdin = child.stdin.take().ok_or("no stdin")?;
         let stdout = BufReader::new(child.stdout.take().ok_or("no stdout")?);
-        let mut w = Worker { child, stdin, stdout };
+        let stderr_tail = Arc::new(Mutex::new(String::new()));
+        if let Some(err) = child.stderr.take() {
+            let tail = stderr_tail.clone();
+            std::thread::spawn(move || {
+                for line in BufReader::new(err).lines().map_while(Result::ok) {
+                    let mut t = tail.lock().unwrap_or_else(|e| e.into_inner());
+                    t.push_str(&line);
+                    t.push('\n');
+                    if t.len() > 4000 {
+                        let cut = t.len() - 3000;
+                        let cut = (cut..t.len()).find(|i| t.is_char_boundary(*i)).unwrap_or(t.len());
+                        *t = t[cut..].to_string();
+                    }
+                }
+            });
+        }
+        let mut w = Worker { child, stdin, stdout, stderr_tail };
         let mut line = String::new();
         w.stdout.read_line(&mut line).map_err(|e| e.to_string())?;
         let v: Value = serde_json::from_str(&line).map_err(|e| format!("worker hello: {} ({:?})", e, line))?;
@@ -91,10 +109,13 @@ impl Worker {
         use std::os::unix::process::ExitStatusExt;
         match self.child.wait() {
             Ok(st) => {
+                std::thread::sleep(Duration::from_millis(20));
+                let tail = self.stderr_tail.lock().unwrap_or_else(|e| e.into_inner()).trim().replace('\n', " | ");
+                let tail = if tail.is_empty() { String::new() } else { format!(" stderr: {}", crate::world::trunc(&tail, 600)) };
                 if let Some(sig) = st.signal() {
-                    Reply::Died(format!("signal {}", sig))
+                    Reply::Died(format!("signal {}{}", sig, tail))
                 } else {
-                    Reply::Died(format!("exit code {}", st.code().unwrap_or(-1)))
+                    Reply::Died(format!("exit code {}{}", st.code().unwrap_or(-1), tail))
                 }
             }
             Err(e) => Reply::Died(format!("wait failed: {}", e)),
